@@ -263,4 +263,106 @@ theorem chkpnt_reload_other {s : St} (h : Inv s) (hu : s.users = ({ me := 0 } : 
   rw [reload_user h1 h2 0 now (Or.inl rfl) u, fileOf_chkpnt_none, if_neg hmem]
   split <;> rfl
 
+/-- if moreover the files not rewritten are up to date (the complete dump leaves none), the new daemon has
+the old table, user by user -/
+theorem chkpnt_reload_all {s : St} (h : Inv s) (hu : s.users = ({ me := 0 } : St).users)
+    (hk : (keys s.files).Nodup)
+    (hsync : s.dirty.length < 16 → ∀ u, u ∉ chkpntUsers s →
+      fileOf s.files u = some (tasksOf s u) ∨ (fileOf s.files u = none ∧ tasksOf s u = []))
+    (u : Nat) :
+    (tasksOf (reload (chkpnt s).files 0 s.now) u).map snapOf = (tasksOf s u).map snapOf := by
+  have hc : s.dirty.length < 16 → ∀ f ∈ s.files, f.1 ∉ chkpntUsers s → Current s f := by
+    intro hl f hf hn
+    have h1 := fileOf_of_mem hk hf
+    rcases hsync hl f.1 hn with h2 | ⟨h2, _⟩
+    · rw [h1] at h2
+      have := current_tasksOf h f.1
+      rw [← Option.some.inj h2] at this
+      exact this
+    · rw [h1] at h2; cases h2
+  by_cases hm : u ∈ chkpntUsers s
+  · exact chkpnt_reload_user h hu hk hc hm
+  · rw [chkpnt_reload_other h hu hk hc s.now hm]
+    by_cases hl : 16 ≤ s.dirty.length
+    · rw [if_pos hl, tasksOf_nil_of_unseen hl hm]; rfl
+    · rw [if_neg hl]
+      rcases hsync (by omega) u hm with h2 | ⟨h2, h3⟩
+      · rw [h2, Option.getD_some, tasksOf_snapAt_now h]
+      · rw [h2, h3]; rfl
+
+/-! ### the failed file is written by the next checkpoint -/
+
+theorem tasksOf_chkpntFault (s : St) (u v : Nat) : tasksOf (chkpntFault s u) v = tasksOf s v := rfl
+
+/-- whoever's file could not be written stays on the list; the complete dump keeps the whole list -/
+theorem chkpntFault_dirty (s : St) (u : Nat) : (chkpntFault s u).dirty =
+    if u ∈ chkpntUsers s then (if 16 ≤ s.dirty.length then s.dirty else [u]) else [] := by
+  unfold chkpntFault
+  by_cases hm : u ∈ chkpntUsers s
+  · have hb : (chkpntUsers s).contains u = true := by simpa using hm
+    simp only [hb, Bool.not_true, Bool.false_eq_true, if_false, ge_iff_le, if_pos hm]
+  · have hb : (chkpntUsers s).contains u = false := by simpa using hm
+    simp only [hb, Bool.not_false, if_true, if_neg hm]
+
+theorem chkpntUsers_chkpntFault {s : St} {u : Nat} (hm : u ∈ chkpntUsers s) :
+    chkpntUsers (chkpntFault s u) = if 16 ≤ s.dirty.length then chkpntUsers s else [u] := by
+  have hd := chkpntFault_dirty s u
+  rw [if_pos hm] at hd
+  by_cases hl : 16 ≤ s.dirty.length
+  · rw [if_pos hl] at hd
+    rw [if_pos hl]
+    unfold chkpntUsers
+    rw [hd]
+    rfl
+  · rw [if_neg hl] at hd
+    rw [if_neg hl]
+    unfold chkpntUsers
+    rw [hd]
+    rfl
+
+/-- a failing call while `u`'s file is written, then a completed checkpoint: the spool is, file by file, what
+the checkpoint without the fault would have left -/
+theorem fault_retry {s : St} {u : Nat} (hm : u ∈ chkpntUsers s) (v : Nat) :
+    fileOf (chkpnt (chkpntFault s u)).files v = fileOf (chkpnt s).files v := by
+  rw [fileOf_chkpnt_none, fileOf_chkpnt_none, chkpntUsers_chkpntFault hm, chkpntFault_dirty, if_pos hm,
+    tasksOf_chkpntFault]
+  by_cases hl : 16 ≤ s.dirty.length
+  · simp only [if_pos hl]
+  · simp only [if_neg hl, List.mem_singleton, List.length_singleton]
+    by_cases hvu : v = u
+    · rw [if_pos hvu, hvu, if_pos hm]
+    · rw [if_neg hvu, if_neg (show ¬ 16 ≤ 1 by omega), chkpntFault_files, fileOf_writeAll]
+      by_cases h2 : v ∈ chkpntUsers s
+      · rw [if_pos ((List.mem_erase_of_ne hvu).mpr h2), if_pos h2]
+      · rw [if_neg (fun c => h2 ((List.mem_erase_of_ne hvu).mp c)), if_neg h2]
+
+theorem Inv_chkpntFault {s : St} (h : Inv s) (u : Nat) : Inv (chkpntFault s u) :=
+  InvP_frame h rfl rfl (Nat.le_refl _) (Nat.le_refl _) rfl rfl
+
+/-- … and a new daemon started on it has the old table, user by user (same proviso as `chkpnt_reload_all`) -/
+theorem fault_retry_reload {s : St} (h : Inv s) (hu : s.users = ({ me := 0 } : St).users)
+    (hk : (keys s.files).Nodup)
+    (hsync : s.dirty.length < 16 → ∀ u, u ∉ chkpntUsers s →
+      fileOf s.files u = some (tasksOf s u) ∨ (fileOf s.files u = none ∧ tasksOf s u = []))
+    {u : Nat} (hm : u ∈ chkpntUsers s) (v : Nat) :
+    (tasksOf (reload (chkpnt (chkpntFault s u)).files 0 s.now) v).map snapOf = (tasksOf s v).map snapOf := by
+  have hk' : (keys (chkpntFault s u).files).Nodup := by
+    rw [chkpntFault_files]
+    exact keys_nodup_writeAll s _ _ hk
+  refine chkpnt_reload_all (s := chkpntFault s u) (Inv_chkpntFault h u) hu hk' ?_ v
+  intro hl' w hw
+  rw [chkpntUsers_chkpntFault hm] at hw
+  rw [chkpntFault_dirty, if_pos hm] at hl'
+  have hl : s.dirty.length < 16 := by
+    by_cases c : 16 ≤ s.dirty.length
+    · rw [if_pos c] at hl'; omega
+    · omega
+  rw [if_neg (by omega), List.mem_singleton] at hw
+  rw [tasksOf_chkpntFault, chkpntFault_files, fileOf_writeAll]
+  by_cases h2 : w ∈ chkpntUsers s
+  · rw [if_pos ((List.mem_erase_of_ne hw).mpr h2)]
+    exact Or.inl rfl
+  · rw [if_neg (fun c => h2 ((List.mem_erase_of_ne hw).mp c))]
+    exact hsync hl w h2
+
 end Echse.Daemon
